@@ -272,3 +272,99 @@ def now_provenance(cx, body, argn, depth=0):
 def rx_comm(op, a, b):
     """regex for a commutative binary expression whose operands print in canonical (sorted) order"""
     return r"(?:%s\(%s,%s\)|%s\(%s,%s\))" % (op, a, b, op, b, a)
+
+
+# ---------------------------------------------------------------------------------------------------
+# AC-normal form for arithmetic expression trees (T7 SHAPE): products are flattened into
+# coefficient * sorted factors / sorted divisors (constants folded exactly), sums into sorted terms.
+from fractions import Fraction
+
+
+def _const_val(e):
+    if e[0] == "cast":
+        return _const_val(e[2])
+    if e[0] == "bin" and e[1] in ("Add", "Sub", "Mul", "Div"):
+        a, b = _const_val(e[2]), _const_val(e[3])
+        if a is None or b is None:
+            return None
+        if e[1] == "Add":
+            return a + b
+        if e[1] == "Sub":
+            return a - b
+        if e[1] == "Mul":
+            return a * b
+        return a / b if b != 0 else None
+    if e[0] == "const" and e[2] in ("f64", "f32", "u8", "u16", "u32", "u64", "usize", "i32", "i64", "isize", "{float}", "{integer}"):
+        try:
+            return Fraction(str(e[1]))
+        except Exception:
+            return None
+    return None
+
+
+def acnf(e, consts=None):
+    """canonical string of an arithmetic expression modulo associativity/commutativity of + and *,
+    division by constants, integer->float casts and named constants (resolved through `consts`)"""
+    k = e[0]
+    if k == "const":
+        v = _const_val(e)
+        if v is not None:
+            return _fr(v)
+        return show(e)
+    if k == "cast":
+        return acnf(e[2], consts)  # numeric widening casts are transparent for the formula's shape
+    cv = _const_val(e)
+    if cv is not None:
+        return _fr(cv)
+    if k == "bin" and e[1] in ("Mul", "Div"):
+        coef, num, den = _prod(e, consts)
+        s = "*".join(sorted(num)) or "1"
+        if den:
+            s += "/(" + "*".join(sorted(den)) + ")"
+        if coef != 1:
+            s = _fr(coef) + "*" + s
+        return s
+    if k == "bin" and e[1] in ("Add", "Sub"):
+        terms = _sum(e, consts, 1)
+        return "(" + " + ".join(sorted(terms)) + ")"
+    if k == "call":
+        name = e[1]
+        args = [acnf(a, consts) for a in e[2]]
+        if name in ("f64::max", "f64::min", "Ord::max", "Ord::min"):
+            args = sorted(args)
+        return name + "(" + ",".join(args) + ")"
+    if k == "un":
+        return e[1].lower() + "(" + acnf(e[2], consts) + ")"
+    return show(e)
+
+
+def _fr(v):
+    return str(v.numerator) if v.denominator == 1 else "%d/%d" % (v.numerator, v.denominator)
+
+
+def _prod(e, consts):
+    if e[0] == "cast":
+        return _prod(e[2], consts)
+    if e[0] == "bin" and e[1] == "Mul":
+        c1, n1, d1 = _prod(e[2], consts)
+        c2, n2, d2 = _prod(e[3], consts)
+        return c1 * c2, n1 + n2, d1 + d2
+    if e[0] == "bin" and e[1] == "Div":
+        c1, n1, d1 = _prod(e[2], consts)
+        c2, n2, d2 = _prod(e[3], consts)
+        if c2 == 0:
+            return c1, n1 + d2, d1 + n2 + ["0"]
+        return c1 / c2, n1 + d2, d1 + n2
+    v = _const_val(e)
+    if v is not None:
+        return v, [], []
+    return Fraction(1), [acnf(e, consts)], []
+
+
+def _sum(e, consts, sign):
+    if e[0] == "bin" and e[1] == "Add":
+        return _sum(e[2], consts, sign) + _sum(e[3], consts, sign)
+    if e[0] == "bin" and e[1] == "Sub":
+        return _sum(e[2], consts, sign) + _sum(e[3], consts, -sign)
+    s = acnf(e, consts)
+    return [s if sign > 0 else "-" + s]
